@@ -14,44 +14,44 @@ var untimedAssumptions = []string{
 
 func init() {
 	checks["C01"] = func(prop, tier string) int {
-		p := []plan{{"all1", 10}, {"rep2-d3", 20}, {"part2-d4", 25}, {"part4-d2", 30}, {"rep3-d3", 70}, {"crash3-d2", 40}, {"net3-d2", 20}, {"lead3-d2", 30}, {"regained5-d2", 40}}
+		p := []plan{{"all1", 10}, {"rep2-d3", 10}, {"part2-d4", 25}, {"rep3-d3", 80}, {"crash3-d2", 40}, {"net3-d2", 15}, {"regained5-d2", 40}}
 		if tier == "thorough" {
 			p = []plan{{"all1", 10}, {"all2", 150}, {"rep2-d5", 100}, {"rep3-d4", 500}, {"crash3-d3", 300}, {"net3-d3", 120}, {"lead3-d3", 300}, {"rep4-d3", 150}, {"rep5-d2", 60}, {"crash5-d2", 120}, {"part2-d5", 100}, {"part3-d3", 400}, {"part4-d3", 400}, {"regained5-d3", 300}, {"stale5-d3", 300}}
 		}
 		return clusterCheck(prop, tier, p, []string{"leader_present", "op_applied_on_2plus_nodes", "restarted_node_up", "op_acked"}, untimedAssumptions)
 	}
 	checks["C02"] = func(prop, tier string) int {
-		p := []plan{{"elect2-d3", 10}, {"elect3-d3", 60}, {"elect4-d2", 30}, {"split3-d3", 20}, {"crash3-d2", 40}, {"crash2-d3", 30}, {"part2-d4", 25}, {"part4-d2", 30}}
+		p := []plan{{"elect2-d3", 10}, {"elect3-d3", 60}, {"elect4-d2", 25}, {"split3-d3", 15}, {"crash3-d2", 40}, {"crash2-d3", 30}, {"part2-d4", 25}}
 		if tier == "thorough" {
 			p = []plan{{"elect2-d5", 100}, {"elect3-d4", 500}, {"elect4-d3", 300}, {"elect5-d2", 120}, {"split3-d4", 200}, {"crash3-d3", 300}, {"crash2-d4", 150}, {"crash4-d2", 100}}
 		}
 		return clusterCheck(prop, tier, p, []string{"leader_present", "term_3plus", "restarted_node_up"}, untimedAssumptions)
 	}
 	checks["C07"] = func(prop, tier string) int {
-		p := []plan{{"rep3-d3", 70}, {"split3-d2", 10}, {"lead3-d2", 30}, {"elect3-d2", 15}, {"crash3-d2", 40}}
+		p := []plan{{"rep3-d3", 80}, {"split3-d2", 10}, {"lead3-d2", 30}, {"elect3-d2", 10}, {"crash3-d2", 40}, {"oldlong3-d2", 25}}
 		if tier == "thorough" {
-			p = []plan{{"rep3-d4", 500}, {"split3-d4", 200}, {"lead3-d3", 300}, {"elect3-d4", 400}, {"crash3-d3", 300}, {"rep4-d3", 150}}
+			p = []plan{{"rep3-d4", 500}, {"split3-d4", 200}, {"lead3-d3", 300}, {"elect3-d4", 400}, {"crash3-d3", 300}, {"rep4-d3", 150}, {"oldlong3-d4", 400}, {"snap3-d3", 300}}
 		}
 		return clusterCheck(prop, tier, p, []string{"leader_present", "two_leaders_different_terms", "op_acked"}, untimedAssumptions)
 	}
 	checks["C03"] = func(prop, tier string) int {
-		p := []plan{{"cli3-d2", 30}, {"rep3-d3", 70}, {"net3-d2", 20}, {"all2", 90}}
+		p := []plan{{"cli3-d2", 25}, {"rep3-d3", 80}, {"net3-d2", 15}, {"pending3-d2", 30}}
 		if tier == "thorough" {
 			p = []plan{{"cli3-d3", 200}, {"cli3-d4", 600}, {"rep3-d4", 500}, {"net3-d3", 120}, {"all2", 150}, {"rep4-d3", 150}}
 		}
 		return clusterCheck(prop, tier, p, []string{"leader_present", "op_acked", "op_applied_on_2plus_nodes"}, untimedAssumptions)
 	}
 	checks["C04"] = func(prop, tier string) int {
-		p := []plan{{"all1", 10}, {"crash2-d3", 30}, {"crash3-d2", 40}, {"lead3-d2", 30}, {"stale5-d2", 40}, {"regained5-d2", 40}, {"part2-d4", 25}, {"part4-d2", 30}}
+		p := []plan{{"all1", 10}, {"crash2-d3", 30}, {"crash3-d2", 40}, {"lead3-d2", 30}, {"stale5-d2", 40}, {"regained5-d2", 40}, {"part2-d4", 25}}
 		if tier == "thorough" {
 			p = []plan{{"all1", 10}, {"crash2-d4", 150}, {"crash3-d3", 400}, {"lead3-d3", 400}, {"stale5-d3", 300}, {"crash4-d2", 100}, {"crash5-d2", 150}}
 		}
 		return clusterCheck(prop, tier, p, []string{"leader_present", "op_acked", "restarted_node_up", "node_down"}, untimedAssumptions)
 	}
 	checks["C05"] = func(prop, tier string) int {
-		p := []plan{{"deposed3-d2", 20}, {"read3-d3", 40}, {"deposed3-d3", 90}}
+		p := []plan{{"deposed3-d2", 20}, {"read3-d3", 40}, {"nvread5-d2", 120}}
 		if tier == "thorough" {
-			p = []plan{{"deposed3-d4", 600}, {"read3-d4", 600}, {"deposed3-d3", 120}}
+			p = []plan{{"deposed3-d4", 600}, {"read3-d4", 600}, {"deposed3-d3", 120}, {"nvread5-d3", 300}}
 		}
 		return clusterCheck(prop, tier, p, []string{"leader_present", "op_acked", "read_served"}, append([]string{"at most one outstanding read-only operation per node (map iteration order inside the read-only loop is not controlled)"}, untimedAssumptions...))
 	}
@@ -76,7 +76,11 @@ func init() {
 		if tier == "thorough" {
 			p = []plan{{"mem1-d4", 100}, {"mem2-d3", 300}, {"mem3-d3", 500}, {"memlead3-d3", 700}}
 		}
-		return clusterCheckAlso(prop, tier, p, []string{"leader_present", "op_acked", "config_changed"}, untimedAssumptions, []string{"C01", "C02", "C07"})
+		sp := []schedPlan{{"mem-race", 2, 40}}
+		if tier == "thorough" {
+			sp = []schedPlan{{"mem-race", 3, 300}}
+		}
+		return clusterCheckSched(prop, tier, p, []string{"leader_present", "op_acked", "config_changed"}, untimedAssumptions, []string{"C01", "C02", "C07"}, sp)
 	}
 	checks["C16"] = func(prop, tier string) int {
 		p := []plan{{"sticky3r0-d2", 30}, {"sticky3r1-d2", 30}, {"sticky3r2-d2", 30}, {"rejoin3r0-d3", 40}, {"rejoin3r1-d2", 20}, {"rejoin3r2-d2", 20}}
@@ -96,5 +100,15 @@ func init() {
 		return clusterCheck(prop, tier, p, []string{"leader_present", "op_acked", "read_served", "two_leaders_different_terms"}, []string{
 			"timed mode: synchronised clocks in heartbeat intervals (election timeout 6, lease 2 intervals); every message is delivered within at most one interval (lag events) unless a link is cut, so lease + delay < election timeout",
 			"at most one outstanding read per node; horizon 14-30 intervals; deviation bound per suite"})
+	}
+	checks["C15"] = func(prop, tier string) int {
+		p := []plan{{"live-rep3-d2", 80}, {"live-mem3-d2", 30}, {"live-bigsnap3-d2", 50}, {"live-snap3-d1", 30}}
+		if tier == "thorough" {
+			p = []plan{{"live-rep3all-d2", 400}, {"live-rep3-d3", 500}, {"live-mem3all-d2", 200}, {"live-mem3-d3", 400}, {"live-bigsnap3all-d2", 300}, {"live-bigsnap3-d3", 400}, {"live-snap3all-d2", 400}, {"live-snap3-d3", 400}}
+		}
+		return clusterCheck(prop, tier, p, []string{"leader_present", "op_acked", "continuations", "restarted_node_up"}, []string{
+			"liveness as bounded liveness: from every leaf state (quick) / every distinct state (thorough) of the listed explorations a fault-free continuation runs for 150 heartbeat intervals (25 election timeouts): partitions heal, messages are delivered within the interval, election timeouts are staggered per node; premise checked: a majority of the voters is running",
+			"start states come from bounded explorations with crashes at storage-call boundaries, partitions, membership changes and snapshots (payloads below and above the 32 KiB chunk size)",
+			"a member that is not part of the leader's committed configuration is not required to catch up"})
 	}
 }
